@@ -7,6 +7,7 @@ timezone.get_local_time_zone_format, TimePoint.to_local_time_zone and the
 parser's default zone.  The system zone is presented through a
 Mock(spec=time) bound to timezone.time and through the real TZ variable +
 time.tzset()."""
+import decimal
 import os
 import time as _time
 from fractions import Fraction as F
@@ -301,8 +302,22 @@ def _run_case(ctx, repo, case, MODE):
     elif op == "from":
         m = make_mock(case.get("std", 0), 0, 0, 0)
         with mock.patch.object(TZM, "time", m):
+            n = case["n"]
+            if case.get("ntype") == "fraction":
+                n = F(*n)
+            elif case.get("ntype") == "decimal":
+                n = decimal.Decimal(n[0]) / decimal.Decimal(n[1])
+            elif case.get("ntype") == "str":
+                n = str(F(*n).numerator) if n[1] == 1 else \
+                    repr(float(F(*n)))
+            if case.get("ntype"):
+                ctx.cls("from_epoch/count-type/" + case["ntype"])
             repo.data.get_timepoint_from_seconds_since_unix_epoch(
-                case["n"], utc=case["utc"])
+                n, utc=case["utc"])
+            if case.get("ntype"):
+                ctx.nontrivial(("from-typed", case["ntype"],
+                                tuple(case["n"]), case["utc"]))
+                return
             if case.get("via_strptime") is not None and \
                     isinstance(case["n"], int):
                 # the same count read as text by strptime("%s"), whatever
@@ -505,6 +520,15 @@ def workload(ctx, repo):
         else:
             val = rng.randint(0, 4 * 10**9) + rng.choice(
                 (0.5, 0.25, 0.999999, 0.000001, rng.randrange(10**6) / 10**6))
+        if i % 11 == 3 and isinstance(val, (int, float)) and val >= 0:
+            # the same count as a Fraction / Decimal / text: a whole number
+            # plus a binary fraction, exact in every type
+            num = int(val) * 8 + (i // 11) % 8
+            tcase = {"op": "from", "n": [num, 8], "utc": i % 2 == 0,
+                     "ntype": ("fraction", "decimal", "str")[(i // 11) % 3]}
+            ctx.case = tcase
+            ctx.ev("cases.count-types")
+            run_case(ctx, repo, tcase)
         case = {"op": "from", "n": val, "utc": i % 2 == 0,
                 "std": 0 if i % 4 == 0 else 60 * rng.randint(-1440, 1440),
                 "mode": R.MODES[i % 4] if i % 3 == 0 else "gregorian"}
